@@ -175,6 +175,19 @@ pub fn text_target(s: &str, rep: &mut Report) -> Result<(), Failure> {
     if let Ok(w) = timed("WalletPolicy::from_str", s, || WalletPolicy::from_str(s))? {
         accepted = true;
         timed("WalletPolicy ops", s, || (w.to_string(), w.clone().into_descriptor().is_ok()))?;
+        // key information of every kind (also kinds the template's context refuses)
+        let pool = [keys::key_uncompressed(1), keys::key_xonly(2), keys::key_compressed(3), keys::key_xpub(0, 0, 0, true), format!("{}/<0;1>/*", keys::key_xpub(0, 0, 0, false).rsplitn(3, '/').last().unwrap_or("")), keys::key_uncompressed(4)];
+        for start in 0..pool.len() {
+            for n in 1..=4usize {
+                let ks: Vec<DescriptorPublicKey> = (0..n).filter_map(|i| DescriptorPublicKey::from_str(&pool[(start + i) % pool.len()]).ok()).collect();
+                let mut w2 = w.clone();
+                timed("WalletPolicy::set_key_info + into_descriptor", s, || {
+                    if w2.set_key_info(&ks).is_ok() {
+                        let _ = w2.into_descriptor().map(|d| d.to_string());
+                    }
+                })?;
+            }
+        }
     }
     if let Ok(t) = timed("expression::Tree::from_str", s, || miniscript::expression::Tree::from_str(s))? {
         timed("expression::Tree ops", s, || format!("{:?}", t).len())?;
@@ -404,7 +417,26 @@ impl Check for C11 {
     fn run_case(&self, lane: &str, src: &mut Src, rep: &mut Report) -> Result<(), Failure> {
         match lane {
             "text" | "compile" => {
-                let base: String = match src.below(if lane == "compile" { 1 } else { 7 }) {
+                let base: String = match src.below(if lane == "compile" { 1 } else { 8 }) {
+                    7 => {
+                        // an extended key that claims to sit 253-255 levels deep, with 0-3 more steps
+                        let xp = keys::u().accounts[src.below(keys::N_ACCOUNTS)].2;
+                        let mut b = xp.encode();
+                        b[4] = *src.pick(&[253u8, 254, 255, 255]);
+                        let mut t = bitcoin::bip32::Xpub::decode(&b).map(|x| x.to_string()).unwrap_or_default();
+                        for _ in 0..src.below(4) {
+                            t.push_str(&format!("/{}", src.below(3)));
+                        }
+                        if src.bool() {
+                            t.push_str("/*");
+                        }
+                        match src.below(4) {
+                            0 => t,
+                            1 => format!("wpkh({})", t),
+                            2 => format!("wsh(pk({}))", t),
+                            _ => format!("tr({})", t),
+                        }
+                    }
                     0 => {
                         let cfg = PolCfg { max_leaves: 7, allow_const: true, distinct_keys: src.bool(), key_hex_ctx: Ctx::Segwitv0, named_keys: lane == "text" && src.bool(), consistent_locks: src.bool(), max_weight: 200, allow_thresh: true, binary: src.bool() };
                         gen::gen_policy(src, &cfg).print()
@@ -471,6 +503,12 @@ impl Check for C11 {
                     // long digit runs
                     let digits = "9".repeat(src.range(10, 400));
                     s = s.replacen(|c: char| c.is_ascii_digit(), &digits, 1);
+                }
+                if lane == "compile" && src.chance(1, 5) {
+                    // a key kind that some target contexts refuse
+                    let from = keys::key_compressed(src.below(8));
+                    let to = if src.bool() { keys::key_uncompressed(src.below(8)) } else { keys::key_xonly(src.below(8)) };
+                    s = s.replacen(&from, &to, 1);
                 }
                 rep.desc = clip(&s);
                 let before = rep.classes.len();
